@@ -60,6 +60,7 @@ fn owner(prim: &str, idx: usize, op: &[u64], t: usize) -> usize {
         ("event", 0..=2) | ("mutex", 0..=2) | ("semaphore", 0..=2) => true,
         ("mpmc", 0..=6) | ("mpmc", 30..=32) => true,
         ("oneshot", 2..=4) => true,
+        ("state", 3..=5) => true,
         ("timer", 1..=4) => true,
         _ => false,
     };
